@@ -34,7 +34,27 @@ def event_constants(repo, attr):
                                 try:
                                     val, where = const_value(n.value), (init, n)
                                 except (ValueError, TypeError):
-                                    raise AnalysisError(f"{cname}.{attr} is not a literal: {src(n)}")
+                                    # a class-level constant of the concrete class read through self / type(self) / cls:  kind._PRECEDENCE
+                                    v2 = None
+                                    if isinstance(n.value, ast.Attribute):
+                                        for c2 in repo.mro(ci):
+                                            if n.value.attr in c2.assigns:
+                                                try:
+                                                    v2 = const_value(c2.assigns[n.value.attr])
+                                                except (ValueError, TypeError):
+                                                    v2 = None
+                                                break
+                                            ann = [st_ for st_ in c2.node.body if isinstance(st_, ast.AnnAssign) and isinstance(st_.target, ast.Name)
+                                                   and st_.target.id == n.value.attr and st_.value is not None]
+                                            if ann:
+                                                try:
+                                                    v2 = const_value(ann[0].value)
+                                                except (ValueError, TypeError):
+                                                    v2 = None
+                                                break
+                                    if v2 is None:
+                                        raise AnalysisError(f"{cname}.{attr} is not a literal: {src(n)}")
+                                    val, where = v2, (init, n)
             if val is None and attr in c.assigns:
                 try:
                     val, where = const_value(c.assigns[attr]), (c, c.assigns[attr])
